@@ -2,6 +2,7 @@
 documented examples; D2 field skeleton of every non-table writer vs the documented structure of its code."""
 import mir
 import rules_tables as rt
+import rules_num as rn
 from rules_c06 import norm, lin
 
 ILOG = "core::num::<impl u64>::ilog2"
@@ -61,9 +62,9 @@ def spec_for(code):
 
 
 WRITERS = [
-    ("gamma", "codes::gamma::default_write_gamma", (2,)),
-    ("delta", "codes::delta::default_write_delta", (2,)),
-    ("zeta", "codes::zeta::default_write_zeta", (2, 3)),
+    ("gamma", rn.NONTABLE["gamma.write"], (2,)),
+    ("delta", rn.NONTABLE["delta.write"], (2,)),
+    ("zeta", rn.NONTABLE["zeta.write"], (2, 3)),
     ("minimal_binary", "codes::minimal_binary::MinimalBinaryWrite::write_minimal_binary", (2, 3)),
     ("pi", "codes::pi::PiWrite::write_pi", (2, 3)),
     ("rice", "codes::rice::RiceWrite::write_rice", (2, 3)),
@@ -118,11 +119,15 @@ def match(seq, spec):
 def run_skeletons(chk, F, rule="D2.skeleton"):
     chk.rule(rule, floor=8, doc="each non-table writer emits, on every path, the documented sequence of fields (unary / fixed-width / nested code / minimal binary) with the documented lengths and nested arguments; the extra bit of minimal binary comes last")
     for code, path, wargs in WRITERS:
-        b = F.body(path)
+        if isinstance(path, tuple):
+            b, gen = rn.find_body(F, path[0]), path[1]
+            path = b["path"]
+        else:
+            b, gen = F.body(path), {}
         argmap = {a: i for i, a in enumerate(wargs)}
         spec = spec_for(code)
         seqs = []
-        for p in mir.walk(b):
+        for p in mir.walk_inline(b, F, gen_map=gen):
             r = p.ret
             if p.end[0] == "return" and isinstance(r, tuple) and r[0] == "agg" and r[3] == "Ok":
                 seqs.append(emitted(p, argmap))
